@@ -76,6 +76,11 @@ def generate(pid, prop, reg):
             obs = interp.verify(c)
         except EngineError as e:
             unbound.append({'function': key, 'reason': str(e)})
+            # syntactic frame obligations do not depend on the symbolic execution that failed: keep them
+            for ob in interp.obligations:
+                if ob.name.endswith('/frame.pure'):
+                    ob.lemmas, ob.function = [], key
+                    obligations.append(ob)
             continue
         for ob in obs:
             ob.lemmas = lemmas_for(c, ob.name)
